@@ -36,7 +36,8 @@ def all_cases(tier):
 
 SELFTESTS = ["st_disjoint_ok", "st_neighbour_write_bad", "st_nowait_bad", "st_barrier_ok", "st_reduction_ok", "st_shared_accumulator_bad",
              "st_critical_ok", "st_critical_check_outside_bad", "st_named_critical_ok", "st_two_names_bad", "st_atomic_ok", "st_single_ok",
-             "st_single_nowait_bad", "st_private_scratch_ok", "st_shared_scratch_bad"]
+             "st_single_nowait_bad", "st_private_scratch_ok", "st_shared_scratch_bad", "st_dynamic_ok", "st_guided_ok", "st_dynamic_ull_ok",
+             "st_dynamic_for_ok", "st_dynamic_serial_ok", "st_dynamic_neighbour_bad"]
 
 
 def selftest_cases():
@@ -102,7 +103,7 @@ def main(tier):
     selftests = run_selftests(engine, rep)
     cs = all_cases(tier)
     res, vecs = mc_lib.run(engine, [(c["id"], c["line"]) for c in cs])
-    tot = dict(schedules=0, epochs=0, blocks=0, accesses=0, granules=0, pairs=0, writerepochs=0, memops=0, auditblocks=0, regions=0, criticals=0)
+    tot = dict(schedules=0, epochs=0, blocks=0, accesses=0, granules=0, pairs=0, writerepochs=0, memops=0, auditblocks=0, regions=0, criticals=0, dynchunks=0)
     nontrivial = 0
     sched_dep_access = []
     for c in cs:
@@ -123,6 +124,7 @@ def main(tier):
         "epochs_with_two_or_more_writers": tot["writerepochs"], "audited_blocks": tot["auditblocks"],
         "evaluations": len(cs), "distinct_nontrivial": nontrivial,
         "critical_sections_passed": tot.get("criticals", 0),
+        "dynamic_schedule_chunks_handed_out": tot.get("dynchunks", 0),
         "engine_selftests": selftests,
         "cases_with_schedule_dependent_access_sets": sched_dep_access[:20],
         "team_sizes": tier_Ts(tier),
@@ -134,6 +136,9 @@ def main(tier):
         "samples": [cs[0]["line"][:300], cs[-1]["line"]],
         "exhaustive": True,
     }
+    if tot.get("dynchunks", 0):
+        rep.note_incomplete("dynamically scheduled loops: iterations are assigned chunk by chunk round-robin in each explored order; other "
+                            "assignments of chunks to threads are not explored")
     if sched_dep_access:
         # access sets that depend on the arrival order (possible under a critical section): the identity schedule no longer stands
         # for all schedules of the case; race freedom is then shown for the explored schedules only
